@@ -112,12 +112,18 @@ class Harness:
           self.run.ob(nm, st, dt, detail=detail, nontrivial=nontriv)
     return cexs
 
-  def prove_all(self, label, ctx, assumptions, goals):
+  def prove_all(self, label, ctx, assumptions, goals, abstract_noise=False):
     """goals: list of (name, z3 Bool/python bool).  Returns list of (name, model) for sat."""
     bad = []
     for nm, g in goals:
       t = time.time()
-      st, model = sj.prove(list(assumptions) + ctx.all_facts(), g, self.timeout)
+      if abstract_noise and sj.is_z(g):
+        (g2,), _ = sj.abstract_noise_atoms([g], list(ctx.uniforms.values()))
+        st, model = sj.prove(list(assumptions) + ctx.all_facts(), g2, self.timeout)
+        if st != 'unsat':
+          st, model = sj.prove(list(assumptions) + ctx.all_facts(), g, self.timeout)
+      else:
+        st, model = sj.prove(list(assumptions) + ctx.all_facts(), g, self.timeout)
       self.run.ob('%s:%s:%s' % (self.name, label, nm), st, time.time() - t,
                   detail=(str(model)[:300] if st != 'unsat' else None), nontrivial=sj.is_z(g))
       if st == 'sat':
